@@ -481,6 +481,9 @@ func Run(r *mon.Run) {
 			}
 		})
 	}
+	if r.WantEngine("refusals") {
+		refusalRecords(r)
+	}
 	if r.WantEngine("binary") {
 		binarySessions(r)
 	}
